@@ -825,6 +825,80 @@ func mpWait(a *mpActor) (string, error) {
 	}
 }
 
+// lateFilter steers one schedule without any hook: ReceiveTx(T) is parked in the filter (i.e. after its cache.Exists
+// check) and released by the SAME filter when Update rechecks the remaining list entry Y under the pool lock, so that
+// the submitter is waiting for the pool lock when Update releases it.
+type lateFilter struct {
+	t, y    string
+	parked  chan struct{}
+	release chan struct{}
+	once    *sync.Once
+}
+
+func (f lateFilter) CheckTx(tx gtypes.Tx) (bool, error) {
+	switch string(tx) {
+	case f.t:
+		close(f.parked)
+		<-f.release
+	case f.y:
+		select {
+		case <-f.parked:
+			f.once.Do(func() {
+				close(f.release)
+				time.Sleep(2 * time.Millisecond) // let the submitter reach mem.Lock()
+			})
+		default:
+		}
+	}
+	return true, nil
+}
+
+// lateCopyRace: a copy of T, a transaction of the block being committed that this node does not hold, is submitted
+// concurrently with Update(block): it passes the seen-check before Update starts and asks for the pool lock while
+// Update holds it.  T is the last of n block transactions.  Whatever the order in which Update does its work, T
+// must not be queued afterwards.
+func lateCopyRace(fail func(int, string, string, bool, string, string, interface{}, interface{}), si int, label string, n, attempts int) {
+	for attempt := 0; attempt < attempts; attempt++ {
+		conf := viper.New()
+		conf.Set("block_size", 10)
+		mem := mempool.NewMempool(conf)
+		f := lateFilter{t: "verif-late-T", y: "verif-late-Y", parked: make(chan struct{}), release: make(chan struct{}), once: new(sync.Once)}
+		mem.RegisterFilter(f)
+		if err := mem.ReceiveTx(gtypes.Tx(f.y)); err != nil {
+			fail(si, label, "error", false, "mempool-late-setup", err.Error(), nil, nil)
+			return
+		}
+		block := make([]gtypes.Tx, 0, n)
+		for i := 0; i < n-1; i++ {
+			block = append(block, gtypes.Tx(fmt.Sprintf("verif-late-filler-%d", i)))
+		}
+		block = append(block, gtypes.Tx(f.t))
+		done := make(chan error, 1)
+		go func() { done <- mem.ReceiveTx(gtypes.Tx(f.t)) }()
+		select {
+		case <-f.parked:
+		case <-time.After(2 * time.Second):
+			fail(si, label, "error", false, "mempool-late-setup", "submitter did not reach the filter", nil, nil)
+			return
+		}
+		mem.Update(1, block)
+		var err error
+		select {
+		case err = <-done:
+		case <-time.After(5 * time.Second):
+			fail(si, label, "error", false, "mempool-late-setup", "submitter did not return", nil, nil)
+			return
+		}
+		for _, b := range mem.Reap(-1) {
+			if string(b) == f.t {
+				fail(si, label, "property", true, "mempool:reoffer-committed",
+					fmt.Sprintf("attempt %d: ReceiveTx(T) ran concurrently with Update(block containing T as the last of %d transactions): it passed the seen-check before Update started and took the pool lock when Update released it; it returned err=%v and Reap offers T although the committed block contains it", attempt, n, err), "ErrTxInCache, T not queued", fmt.Sprint(err))
+				return
+			}
+		}
+	}
+}
+
 func runMempool(rep *mbt.Report, ti int, tr mbt.Trace) {
 	conf := viper.New()
 	conf.Set("block_size", mbt.Int(tr.Cfg["block_size"]))
@@ -957,6 +1031,11 @@ func runMempool(rep *mbt.Report, ti int, tr mbt.Trace) {
 				mpWait(upd)
 			}
 			// (when the refresh waits for the pool lock held by a parked submitter it completes later: see below)
+		case "UpdLate":
+			// (pre-repair variant of the specification only: the real Update has entered the cache long before)
+		case "LateCopyRace":
+			lateCopyRace(fail, si, label, mbt.Int(st.Args[0]), mbt.Int(st.Args[1]))
+			continue
 		case "Reap":
 			// checked below through reapNow
 		case "Flush":
